@@ -73,3 +73,45 @@ def inner_delims_present(R, s, n):
     """a non-tag span that touches neither end of the text contains a delimiter (so blanks alone never split a tag)"""
     return all(implies(not R[k][0] and R[k][1][0] > 0 and R[k][1][1] < n, has_delim(s, R[k][1][0], R[k][1][1]))
                for k in range(len(R)))
+
+
+# ----------------------------------------------------------------------------- maps as views (C10)
+def same_keys(m1, m0):
+    """smt-builtin: keys(m1) == keys(m0)"""
+    return set(m1) == set(m0)
+
+
+def map_eq_except_add(m1, m0, key):
+    """smt-builtin: keys(m1) == keys(m0) | {key}"""
+    return set(m1) == set(m0) | {key}
+
+
+def map_eq_except_del(m1, m0, key):
+    """smt-builtin: keys(m1) == keys(m0) - {key}"""
+    return set(m1) == set(m0) - {key}
+
+
+# ----------------------------------------------------------------------------- namespaces (C13)
+def has_namespace_colon(t):
+    """some ':' of t is preceded by neither '/' nor ':'"""
+    return any(t[i] == ':' and all(t[j] != '/' and t[j] != ':' for j in range(i)) for i in range(len(t)))
+
+
+# ----------------------------------------------------------------------------- parentheses (C01, C02)
+def count_char(s: "Str", c: "Str", n: "Int") -> "Int":
+    """number of occurrences of the one-character string c in s[:n]  (str.count for one character)"""
+    return 0 if n <= 0 else count_char(s, c, n - 1) + (1 if s[n - 1] == c else 0)
+
+
+def depth(s: "Str", n: "Int") -> "Int":
+    """parenthesis nesting depth after reading s[:n]"""
+    return 0 if n <= 0 else depth(s, n - 1) + (1 if s[n - 1] == '(' else (-1 if s[n - 1] == ')' else 0))
+
+
+def never_negative(s: "Str", n: "Int") -> "Bool":
+    """no prefix of s[:n] closes more parentheses than it opened"""
+    return True if n <= 0 else (never_negative(s, n - 1) and depth(s, n) >= 0)
+
+
+def balanced(s):
+    return never_negative(s, len(s)) and depth(s, len(s)) == 0
